@@ -159,7 +159,7 @@ def _definition(reg, Class, symbol, equation="R"):
 
 
 OPS = ("register_valid", "register_second", "register_inconsistent", "register_duplicate_symbol", "register_invalid_symbol",
-       "remove", "reset_all", "reset_elements_only", "reset_defaults_only", "set_default", "reset_default_values")
+       "remove", "reset_all", "reset_elements_only", "reset_defaults_only", "set_default", "reset_default_values", "set_default_unknown_key")
 
 
 def check_registry(eng, reg, model, tag):
@@ -253,6 +253,12 @@ def make_history_harness(length: int):
                     v = eng.real("step%d.value" % step)
                     Resistor.set_default_values(R=v)
                     model["R_default"] = v
+                elif op == "set_default_unknown_key":
+                    # a key that is not a parameter of the class -- for a container also the name of one of its sub-circuits -- is refused
+                    # and leaves the class defaults alone (check_registry compares every built-in's defaults with the snapshot)
+                    cls, key = ((Resistor, "X"), (s["default_elements"]["Tlm"], "Zeta"), (s["default_elements"]["Tlm"], "X_1"))[eng.choice(3, "step%d.target" % step)]
+                    ok, res = call(cls.set_default_values, **{key: 0.5})
+                    eng.check((not ok) and isinstance(res, KeyError), "set_default_values refuses a key that is not a parameter", lambda: "%s.%s -> %r" % (cls.__name__, key, res))
                 else:
                     reg.reset_default_parameter_values()
                     model["R_default"] = s["defaults"]["R"][0]["R"]
